@@ -5,6 +5,6 @@ WT=/tmp/tryseed_$$
 git -C /repo worktree add --detach $WT HEAD -q || exit 9
 git -C $WT apply "$P" || { echo "patch does not apply"; git -C /repo worktree remove --force $WT; exit 9; }
 for id in "$@"; do
-  VERIF_REPO=$WT /verif/check $id --tier $T 2>&1 | grep -E "^(VIOLATION|KNOWN|INCONCLUSIVE|$id tier)|what:" | cut -c1-420 | head -8
+  VERIF_EVIDENCE_DIR=/tmp/seed_evidence VERIF_REPO=$WT /verif/check $id --tier $T 2>&1 | grep -E "^(VIOLATION|KNOWN|INCONCLUSIVE|$id tier)|what:" | cut -c1-420 | head -8
 done
 git -C /repo worktree remove --force $WT
